@@ -39,9 +39,11 @@ def make_cases(rng, tier):
         if i % 5 == 4:       # degenerate covariance: rank one / zero
             for r in build:
                 r['t'] = [r['t'][0]] * S if i % 10 == 4 else [3] * S
-        if i % 7 == 6:       # one class with a single building trace (templates only)
+        if i % 7 == 6:       # one class with a single building trace (its covariance contribution is the zero matrix)
             k = 0
             build = [r for r in build if r['d'][0] != classes[0]] + [{'t': [rng.randint(1, hi) for _ in range(S)], 'd': [classes[0]]}]
+        if i % 7 == 3:       # one declared class without any building trace
+            build = [r for r in build if r['d'][0] != classes[-1]]
         match = [{'t': [rng.randint(0, hi) for _ in range(S)], 'd': [rng.choice(classes) for _ in range(W)]} for _ in range(rng.randint(1, 5))]
         cases.append({'c': {'S': S, 'W': W, 'classes': classes, 'variant': 'fixed'}, 'build': build, 'match': match})
     return cases
@@ -96,7 +98,7 @@ def run(chk):
     chk.rule = ('driver-proposed building/matching sets (trace length 1-2, 2-3 declared classes in any order with gaps / values above 255, unbalanced, undeclared rows, '
                 'degenerate covariances, single-trace classes); expected values are exact rationals from specs/TplCases.tla; one evaluation = one compared array '
                 '(templates / pooled covariance / pseudo-inverse / static scores / DPA scores) of one attack object; distinct = (case, array, precision, batch size)')
-    chk.assumptions += ['trace length <= 2 for the exact pseudo-inverse', 'pooled covariance / scores claimed when every declared class has >= 2 building traces (unbiased covariance undefined otherwise); '
+    chk.assumptions += ['trace length <= 2 for the exact pseudo-inverse', 'a declared class with fewer than 2 building traces contributes the zero matrix to the pooled covariance, which is averaged over ALL declared classes; '
                         'templates claimed for every class with >= 1 trace', 'tolerance 64 eps x conditioning magnitude']
     enumerated(chk)
     cases = make_cases(rng, chk.tier)
@@ -134,8 +136,6 @@ def run(chk):
                         got_t = np.asarray(a.templates, dtype='float64')
                         big = max(1.0, float(np.abs(want_t).max()))
                         cmp(chk, 'template of a class is the mean of its building traces', got_t[nonempty], want_t[nonempty], prec, 4, dict(ctx, mag=big), 'templates')
-                        if not rs['full']:
-                            continue
                         want_p = np.array([[fr(x) for x in row] for row in rs['pooled']]) * sc * sc
                         nb = len(case['build'])
                         kap = 8 * nb * max(1.0, (hi_sq(case) * sc * sc) / max(1e-12, float(np.abs(want_p).max() or 1.0)))
